@@ -302,7 +302,7 @@ def r10_4(ctx, rep, roles):
                        where(ap), evaluations=8, sample="append filled=%s last-slot=%s: sum' = sum + x %s; index wraps; is_filled sticky" % (filled, last, "- evicted" if filled else ""))
     rep.floor("append-rows", n, 4)
     for row in eng.table(cl["id"], arg_terms={1: ("ptr", ("S", "self"), ())}):
-        vals = {e[2][-1][2]: e[3] for e in row.writes() if e[2]}
+        vals = {T.path_field(e[2]): e[3] for e in row.writes() if e[2] and e[2][-1][0] == "f"}
         ok = vals.get("index") == sym.C(0) and vals.get("is_filled") == sym.FALSE and vals.get("sum", ("x",))[0] == "c" and vals["sum"][1] == 0
         rep.obligation(ok, "C10/R10.4/clear", "clear sets %s" % {k: sym.fmt(v) for k, v in vals.items()}, where(cl), sample="clear: index=0, is_filled=false, sum=0")
     for row in eng.table(ln["id"], arg_terms={1: ("ptr", ("S", "self"), ())}):
